@@ -180,8 +180,14 @@ func suiteFault(t *testing.T, cfg cfgT) {
 		out.stat("envs")
 		for i := 0; i < 8 && cases < cfg.n; i++ {
 			q := egQuery(hr, nss)
-			base := &storagePlan{}
+			base := &storagePlan{cancelAt: costBudget} // see costBudget: exponentially expensive requests are cancelled there and skipped
 			obs0, _, _ := ee.runPlan(q, 0, base, 20*time.Second)
+			if base.count() >= costBudget {
+				out.emit(fmt.Sprintf("echeck %s %d", fmtTuple(q), 0), "costly")
+				out.stat("costly")
+				cases++
+				continue
+			}
 			out.emit(fmt.Sprintf("echeck %s %d", fmtTuple(q), 0), obs0)
 			n := base.count()
 			out.stat(fmt.Sprintf("calls.%d", min(n, 20)))
